@@ -14,6 +14,7 @@ fn run_line(prop: &str, args: &[&str]) -> String {
         "C06" => conn::run(args),
         "C07" => wire::run(args),
         "C13" => sess::run13(args),
+        "C14" => sess::run14(args),
         _ => panic!("unknown property {}", prop),
     }
 }
@@ -23,13 +24,73 @@ fn gen(prop: &str, rng: &mut Rng, n: usize) -> Vec<String> {
         "C06" => conn::gen(rng, n),
         "C07" => wire::gen(rng, n),
         "C13" => sess::gen13(rng, n),
+        "C14" => sess::gen14(rng, n),
         _ => panic!("unknown property {}", prop),
     }
 }
 
+/// Candidate simplifications of one argument token (used by `harness shrink`).
+fn shrink_token(t: &str) -> Vec<String> {
+    let mut out = vec![];
+    let list = |sep: char, out: &mut Vec<String>| {
+        let items: Vec<&str> = t.split(sep).collect();
+        let n = items.len();
+        if n > 1 {
+            let s = sep.to_string();
+            out.push(items[..n / 2].join(&s));
+            out.push(items[n / 2..].join(&s));
+            if n >= 8 {
+                for q in 0..4 {
+                    let (a, b) = (q * n / 4, (q + 1) * n / 4);
+                    let mut v = items.clone();
+                    v.drain(a..b);
+                    out.push(v.join(&s));
+                }
+            }
+            for i in (0..n).rev() {
+                let mut v = items.clone();
+                v.remove(i);
+                out.push(v.join(&s));
+            }
+        }
+    };
+    if t.contains(';') {
+        list(';', &mut out);
+    } else if t.contains(',') {
+        list(',', &mut out);
+    } else if let Some(h) = t.strip_prefix('x') {
+        let n = h.len() / 2;
+        if n > 0 {
+            out.push(format!("x{}", &h[..2 * (n / 2)]));
+            out.push(format!("x{}", &h[2 * (n / 2)..]));
+            if n <= 96 {
+                for i in (0..n).rev() {
+                    out.push(format!("x{}{}", &h[..2 * i], &h[2 * i + 2..]));
+                }
+            }
+        }
+    } else if let Some(b) = t.strip_prefix('b') {
+        if b.len() > 1 && b.chars().all(|c| c == '0' || c == '1') {
+            out.push(format!("b{}", &b[..b.len() / 2]));
+            out.push(format!("b{}", &b[..b.len() - 1]));
+        }
+    } else if let Ok(v) = t.parse::<u64>() {
+        if v > 0 {
+            out.push("0".into());
+            out.push((v / 2).to_string());
+            out.push((v - 1).to_string());
+        }
+    }
+    out.retain(|c| c != t && !c.is_empty());
+    out
+}
+
 fn emit(out: &mut impl Write, prop: &str, args_line: &str) {
     let args: Vec<&str> = args_line.split_whitespace().collect();
-    let res = run_line(prop, &args);
+    let res = match util::catch(|| run_line(prop, &args)) {
+        Ok(r) => r,
+        Err(()) => "BADCASE".to_string(),
+    };
     writeln!(out, "{} {} | {}", prop, args_line, res).unwrap();
 }
 
@@ -60,6 +121,25 @@ fn main() {
                 }
                 let (prop, rest) = line.split_once(' ').unwrap_or((&line, ""));
                 emit(&mut out, prop, rest);
+            }
+        }
+        // harness shrink  (stdin: one line `<PROP> <args…>`; stdout: simpler candidate lines)
+        Some("shrink") => {
+            let stdin = std::io::stdin();
+            for line in stdin.lock().lines() {
+                let line = line.unwrap();
+                let line = line.split('|').next().unwrap().trim().to_string();
+                let toks: Vec<&str> = line.split_whitespace().collect();
+                if toks.len() < 2 {
+                    continue;
+                }
+                for i in (1..toks.len()).rev() {
+                    for cand in shrink_token(toks[i]) {
+                        let mut v: Vec<String> = toks.iter().map(|s| s.to_string()).collect();
+                        v[i] = cand;
+                        writeln!(out, "{}", v.join(" ")).unwrap();
+                    }
+                }
             }
         }
         _ => {
